@@ -485,10 +485,11 @@ class eval_abs(object):
 
     def eval_op_arshift(self, args, op_size, cast_int):
         r = args[1]#&0x1F
-        if args[0]>=0:
-            ret_value = ((args[0]&mymaxuint[op_size])>>r)
-        else:
-            ret_value = -((-args[0])>>r)
+        a = int(args[0]) & mymaxuint[op_size]
+        if a >> (op_size-1):
+            # the operand is stored unsigned: recover its sign
+            a -= 1 << op_size
+        ret_value = a >> min(int(r), op_size)
         return ret_value
 
 
@@ -544,7 +545,7 @@ class eval_abs(object):
                'objbyid_default0':objbyid_default0,
                }
 
-    op_size_no_check = ['<<<', '>>>', 'a<<', '>>', '<<',
+    op_size_no_check = ['<<<', '>>>', 'a<<', 'a>>', '>>', '<<',
                         '<<<c_rez', '<<<c_cf',
                         '>>>c_rez', '>>>c_cf',]
 
